@@ -136,6 +136,8 @@ func canon(s []span) ([]span, error) {
 						break
 					}
 					maxPlusOne := this.max.copy()
+					// As a bound, 1.2 is 1.2.0 and its successor is 1.2.1, not 1.3.
+					maxPlusOne.fill(0)
 					err := maxPlusOne.inc()
 					if err != nil {
 						return nil, err
